@@ -198,6 +198,9 @@ OPS = {
     # the expression library's symbols are case-insensitive: two parameters that differ only in case cannot both be bound
     "form-parameters-differ-in-case": [M("pair", lambda s: (rename(s, "Potential-Form", "g(r, a, b)", "g(r, a, A)"), setv(s, "Potential-Form", "g(r, a, A)", "f(r, a) * A + pymath.sqrt(r)"))),
                                        M("eam", lambda s: (rename(s, "Potential-Form", "f(r,a)", "f(r,R)"), setv(s, "Potential-Form", "f(r,R)", "R*r + 1")))],
+    "form-parameter-repeated": [M("pair", lambda s: (rename(s, "Potential-Form", "g(r, a, b)", "g(r, a, a)"), setv(s, "Potential-Form", "g(r, a, a)", "f(r, a) * a + pymath.sqrt(r)"))),
+                                M("eam", lambda s: (rename(s, "Potential-Form", "f(r,a)", "f(r,r)"), setv(s, "Potential-Form", "f(r,r)", "r + 1"))),
+                                M("pair", lambda s: (rename(s, "Potential-Form", "g(r, a, b)", "g(r, a, b, a)"), setv(s, "Potential-Form", "g(r, a, b, a)", "f(r, a) * b"), setv(s, "Pair", "Al-Cu", ">0 f 2.0 >=1.5 sum(g 1.0 2.0 3.0, tf)")))],
     "form-numeric-parameter": [M("pair", lambda s: rename(s, "Potential-Form", "f(r,a)", "f(r,1)"))],
     "form-name-clash": [M("pair", lambda s: sec(s, "Potential-Form")[1].append(["sin(r)", "r"])), M("pair", lambda s: sec(s, "Potential-Form")[1].append(["if(r)", "r"]))],
     "form-same-label-other-arity": [M("pair", lambda s: sec(s, "Potential-Form")[1].append(["f(r)", "r"]))],
@@ -249,9 +252,12 @@ OPS = {
     "species-nonnumeric-number": [M("eam", lambda s: setv(s, "Species", "Cu.atomic_number", "twentynine"))],
     "species-nonnumeric-mass": [M("eam", lambda s: setv(s, "Species", "Cu.atomic_mass", "abc")), M("eam", lambda s: setv(s, "Species", "Al.lattice_constant", "four"))],
     "species-float-number": [M("eam", lambda s: setv(s, "Species", "Cu.atomic_number", "29.0"))],
-    "formula-unparsable": [M("pair", lambda s: setv(s, "Potential-Form", "f(r,a)", "a*r + + * 1")), M("eam", lambda s: setv(s, "Potential-Form", "f(r,a)", "a*(r + 1"))],
-    "formula-undefined-symbol": [M("pair", lambda s: setv(s, "Potential-Form", "f(r,a)", "a*r + b")), M("pair", lambda s: setv(s, "Potential-Form", "f(r,a)", "a*r + nosuch(r)"))],
-    "formula-call-wrong-arity": [M("pair", lambda s: setv(s, "Potential-Form", "g(r, a, b)", "f(r, a, b) * b")), M("pair", lambda s: setv(s, "Potential-Form", "g(r, a, b)", "as.buck(r, a) * b"))],
+    "formula-unparsable": [M("pair", lambda s: setv(s, "Potential-Form", "f(r,a)", "{ a*r + + * 1 }")), M("eam", lambda s: setv(s, "Potential-Form", "f(r,a)", "if (r > 1) { a*r } else { a*(r + 1 }")),
+                           M("pair", lambda s: setv(s, "Potential-Form", "f(r,a)", "a*r + + * 1")), M("eam", lambda s: setv(s, "Potential-Form", "f(r,a)", "a*(r + 1"))],
+    "formula-undefined-symbol": [M("pair", lambda s: setv(s, "Potential-Form", "f(r,a)", "if (r > 1) { a*r } else { b }")), M("eam", lambda s: setv(s, "Potential-Form", "f(r,a)", "{ a*r + nosuch(r) }")),
+                                 M("pair", lambda s: setv(s, "Potential-Form", "f(r,a)", "a*r + b")), M("pair", lambda s: setv(s, "Potential-Form", "f(r,a)", "a*r + nosuch(r)"))],
+    "formula-call-wrong-arity": [M("pair", lambda s: setv(s, "Potential-Form", "g(r, a, b)", "{ f(r, a, b) * b }")),
+                                 M("pair", lambda s: setv(s, "Potential-Form", "g(r, a, b)", "f(r, a, b) * b")), M("pair", lambda s: setv(s, "Potential-Form", "g(r, a, b)", "as.buck(r, a) * b"))],
 }
 
 
